@@ -58,6 +58,11 @@ fn main() {
     // C13: an indented tag on the first line of the file leaves its indentation behind
     if want("f13") { run("f13", &format!("  <t to=\"{old}\">\na\n  </t>\nrest\n"), "<", ">", &[]); }
     if want("f13b") { run("f13b", &format!("x\n  <t to=\"{old}\">\na\n  </t>\nrest\n"), "<", ">", &[]); }
+    // C12: unwrap-block whose tag is indented on the first line of the file vs on a later line
+    if want("f14") { run("f14", &format!("  <t to=\"{old}\" unwrap-block>\n  if a {{\n      body\n  }}\n  </t>\nend\n"), "<", ">", &[]); }
+    if want("f14b") { run("f14b", &format!("x\n  <t to=\"{old}\" unwrap-block>\n  if a {{\n      body\n  }}\n  </t>\nend\n"), "<", ">", &[]); }
+    // C12: nested unwrap-blocks
+    if want("f15") { run("f15", &format!("z\n<t to=\"{old}\" unwrap-block>\nif a {{\n    <t to=\"{old}\" unwrap-block>\n    if b {{\n        body1\n    }}\n    </t>\n    after\n}}\n</t>\nend\n"), "<", ">", &[]); }
     if want("f9") { run("f9", "<m name=\"p\">\n1\n</m>\n<m name=\"q\">\n2\n</m>\n<m name=\"f\">\n3\n</m>\n", "<", ">", &["f"]); }
     if want("f11") { run("f11", &format!("x\n<t to=\"{old}\" unwrap-block>\nif a {{ <m name=\"f\">1</m> <m name=\"f\">2</m> <m name=\"f\">3</m>\n    <t to=\"{old}\" unwrap-block>\n    if b {{\n        body1\n    }}\n    </t>\n    after\n}}\n</t>\nend\n"), "<", ">", &["f"]); }
 }
